@@ -1637,3 +1637,152 @@ func init() {
 	addRule("C05", "C05.putvalue — where the value of a Put in the writers is (a slice of) the contents of a bytes.Buffer, nothing that writes to or rewinds that buffer can execute after the Put: bbolt keeps the value slice until the transaction ends.",
 		func(c *Ctx) { putValueRule(c, "C05.putvalue") })
 }
+
+func init() {
+	addRule("C17", "C17.lockbalance — every mutex a function of the driver acquires is released on every path to every return (= C04.lockbalance): a failed open that returns with the driver-wide mutex held blocks every later Open and Close in the process.",
+		func(c *Ctx) {
+			entries := []*ssa.Function{c.a.DrvOpen}
+			for _, tn := range []*types.Named{c.a.FileConnT, c.a.FileStmtT, c.a.RowsT} {
+				if tn == nil {
+					continue
+				}
+				for i := 0; i < tn.NumMethods(); i++ {
+					if !tn.Method(i).Exported() {
+						continue
+					}
+					if f := c.a.methodOf(tn, tn.Method(i).Name()); f != nil {
+						entries = append(entries, f)
+					}
+				}
+			}
+			lockBalanceRule(c, "C17.lockbalance", entries...)
+		})
+}
+
+// ---- C02.refined -------------------------------------------------------------------------------------------------------
+//
+// A sub-group's rows are the parent group's rows that carry the value the sub-group is named after. refinedRule: in the
+// function that builds the groups (stores a ResultField and a partial group's bitmap), every value that can reach the
+// partial group's bitmap field while a group-by value is being refined — followed backwards through phis — is the result
+// of an intersection (roaring.And / FastAnd / ParAnd, (*Bitmap).And on a clone) one of whose operands comes from a GetCol
+// call. "The rows not yet claimed by an earlier value" for the last value of a column is not such a value: rows that
+// lack the column end up in the group of the column's greatest value. Refutation-style: stores whose origin the rule
+// cannot read (helper results, carried bitmaps) are left to C02.fields.
+func refinedRule(c *Ctx, rule string) {
+	if c.a.ResGroupBMF == nil {
+		return
+	}
+	getColName := c.a.GetColName
+	n := 0
+	for _, fn := range c.w.reach(c.a.Execute).sorted() {
+		if c.w.pkgPathOf(fn) != pkgRoot {
+			continue
+		}
+		hasGetCol := false
+		allInstrs(fn, func(i ssa.Instruction) {
+			if call, ok := i.(*ssa.Call); ok && call.Call.IsInvoke() && call.Call.Method.Name() == getColName {
+				hasGetCol = true
+			}
+		})
+		if !hasGetCol {
+			continue
+		}
+		allInstrs(fn, func(i ssa.Instruction) {
+			st, ok := i.(*ssa.Store)
+			if !ok {
+				return
+			}
+			fa, ok := st.Addr.(*ssa.FieldAddr)
+			if !ok || fieldOf(fa.X.Type(), fa.Field) != c.a.ResGroupBMF {
+				return
+			}
+			// only groups built inside a loop over values (the root group is built from the expression's result before it)
+			inLoop := false
+			for _, l := range loopsOf(fn) {
+				if l.blocks[st.Block()] {
+					inLoop = true
+				}
+			}
+			if !inLoop {
+				return
+			}
+			n++
+			key := fmt.Sprintf("%s: sub-group bitmap#%d", safeFname(fn), n)
+			fromGetCol := func(v ssa.Value) bool {
+				v = peel(v)
+				if e, ok := v.(*ssa.Extract); ok {
+					if call, ok := e.Tuple.(*ssa.Call); ok && call.Call.IsInvoke() && call.Call.Method.Name() == getColName {
+						return true
+					}
+				}
+				return false
+			}
+			var bad ssa.Value
+			seen := map[ssa.Value]bool{}
+			unknown := false
+			var walk func(v ssa.Value)
+			walk = func(v ssa.Value) {
+				if seen[v] || bad != nil {
+					return
+				}
+				seen[v] = true
+				switch x := v.(type) {
+				case *ssa.Phi:
+					for _, e := range x.Edges {
+						walk(e)
+					}
+				case *ssa.Call:
+					name := calleeName(&x.Call)
+					switch name {
+					case roaringPkg + ".And", roaringPkg + ".FastAnd", roaringPkg + ".ParAnd":
+						for _, a := range x.Call.Args {
+							if fromGetCol(a) {
+								return
+							}
+							// FastAnd(a, b): variadic array
+							if sl, ok := a.(*ssa.Slice); ok {
+								if al, ok := sl.X.(*ssa.Alloc); ok {
+									for _, r := range referrers(al) {
+										if ia, ok := r.(*ssa.IndexAddr); ok {
+											for _, r2 := range referrers(ia) {
+												if s2, ok := r2.(*ssa.Store); ok && fromGetCol(s2.Val) {
+													return
+												}
+											}
+										}
+									}
+								}
+							}
+						}
+						unknown = true // an intersection, but not visibly with the value's bitmap
+					default:
+						if strings.HasPrefix(name, roaringPkg+".") && typeIs(x.Type(), roaringPkg, "Bitmap") {
+							bad = x // AndNot / Or / Xor / Flip …: not "the rows that carry the value"
+							return
+						}
+						unknown = true
+					}
+				default:
+					unknown = true
+				}
+			}
+			walk(st.Val)
+			switch {
+			case bad != nil:
+				c.r.bad(rule, key, "a sub-group's rows can be something other than the parent's rows intersected with the bitmap of the value the group is named after ("+shortName(calleeName(&bad.(*ssa.Call).Call))+" on some path): rows that do not carry the value — for example rows that lack the column — are counted into that value's group", []string{c.w.ipos(st)}, c.w.ipos(bad.(ssa.Instruction)))
+			case unknown:
+				c.r.ok(rule, key, "origin of the sub-group's rows not readable by this rule (left to C02.fields)", c.w.ipos(st))
+			default:
+				c.r.ok(rule, key, "every value that reaches the sub-group's rows is an intersection with a GetCol result", c.w.ipos(st))
+			}
+		})
+	}
+	if n == 0 {
+		c.r.ok(rule, "group-by", "no sub-group bitmap is stored next to a GetCol call in one function (helpers: C02.fields)")
+	}
+}
+
+func init() {
+	addRule("C02", "C02.refined — in the function that builds the groups, every value that can reach a sub-group's bitmap inside the loop over a column's values is an intersection (roaring.And/FastAnd/ParAnd) with a GetCol result; a difference, union or complement on some path (`the rest` for the last value) is reported. Refutation-style: origins the rule cannot read are left to C02.fields.",
+		func(c *Ctx) { refinedRule(c, "C02.refined") })
+}
